@@ -454,7 +454,11 @@ class Tokenizer(object):
 # HACK: I couldn't get the parse() thing to work so I'm just not
 #       going to parse whitespace after EscapeSequences that end in
 #       non-letter characters as a half-assed solution.
-                        if token[-1] in encoding.stringletters():
+#       As in TeX, what counts is the category of the first character
+#       after the escape character: a control word (letters by category,
+#       e.g. \foo@ under \makeatletter) and a control space absorb
+#       following whitespace, other control symbols do not.
+                        if next_code in (CC_LETTER, CC_SPACE):
                             # Absorb following whitespace
                             self.state = STATE_S
 
